@@ -18,9 +18,10 @@ per channel, per connection list), then asks for round trips:
     conn <id> <d|s> <i|o> <child> <chan> (<child> <chan>)*   one connection list of composite <id>
     build <id>            current graph := the tree below <id>, a root
     descend <label>       current graph := that child, to be pickled on its own
-    pickle <r> <f> <p> <k> <x> <o>   round trip with Cfg ⟨revIter, firing, pushLinks, keepCache⟩, x = foreign
-                          connections are not stored, o = load() takes the channels over; prints the observation
-    fileload <r> <f> <p> <k> <x> <o> [cls]
+    pickle <cfg> <x> <o>  round trip; <cfg> = six 0/1 digits ⟨revIter, firing, pushIn, pushOut, pushFor, keepCache⟩,
+                          x = foreign connections are not stored, o = load() takes the channels over;
+                          prints the observation
+    fileload <cfg> <x> <o> [cls]
 -/
 
 structure Row where
@@ -130,10 +131,11 @@ partial def showNode (p : Path) : Node → List String
 def showErr : Err → String
   | .key => "key" | .attr => "attr" | .runtime => "runtime" | .type => "type"
 
-def parseCfg (r f p k : String) : Option Cfg :=
-  match parseBool r, parseBool f, parseBool p, parseBool k with
-  | some r, some f, some p, some k => some ⟨r, f, p, k⟩
-  | _, _, _, _ => none
+/-- `<r><f><pi><po><pf><k>`: revIter firing pushIn pushOut pushFor keepCache, one word of six 0/1 -/
+def parseCfg (w : String) : Option Cfg :=
+  match w.toList.map fun ch => parseBool ch.toString with
+  | [some r, some f, some pi, some po, some pf, some k] => some ⟨r, f, pi, po, pf, k⟩
+  | _ => none
 
 def finish (s : St) (haunted : Bool) : Except Err Node → St × List String
   | .ok n => ({ s with cur := some (n, none), haunted := haunted }, showNode [] n)
@@ -246,16 +248,16 @@ def step (s : St) (ws : List String) : St × List String :=
       | some n => ({ s with cur := some (n, some (lexPath (c.forState pp).detached c.label)) }, ["descended"])
       | none => bad
     | _, _ => bad
-  | ["pickle", r, f, p, k, x, o] =>
-    match parseCfg r f p k, parseBool x, parseBool o with
+  | ["pickle", w, x, o] =>
+    match parseCfg w, parseBool x, parseBool o with
     | some cfg, some x, some o => roundTrip s cfg x o false none
     | _, _, _ => bad
-  | ["fileload", r, f, p, k, x, o] =>
-    match parseCfg r f p k, parseBool x, parseBool o with
+  | ["fileload", w, x, o] =>
+    match parseCfg w, parseBool x, parseBool o with
     | some cfg, some x, some o => roundTrip s cfg x o true none
     | _, _, _ => bad
-  | ["fileload", r, f, p, k, x, o, cls] =>
-    match parseCfg r f p k, parseBool x, parseBool o, cls.toNat? with
+  | ["fileload", w, x, o, cls] =>
+    match parseCfg w, parseBool x, parseBool o, cls.toNat? with
     | some cfg, some x, some o, some cls => roundTrip s cfg x o true (some cls)
     | _, _, _, _ => bad
   | _ => bad
